@@ -143,3 +143,13 @@ func SecondBestGood(ds []float64) float64 {
 	}
 	return best[0] + best[1]
 }
+
+// want:MODFRAC wrapped with the other count.
+func RingAngleBad(i, inner, outer int) float64 {
+	return float64(i%outer) * 6.283185307179586 / float64(inner)
+}
+
+// clean:MODFRAC
+func RingAngleGood(i, inner, outer int) float64 {
+	return float64(i%inner) * 6.283185307179586 / float64(inner)
+}
